@@ -104,12 +104,18 @@ def canon(o):
         from nifty.cl.minimization.iteration_controllers import EnergyHistory
         if isinstance(o, EnergyHistory):
             return ("EnergyHistory", list(o.time_stamps), list(o.energy_values))
+    if mod.startswith("jax") and hasattr(o, "dtype"):
+        import jax
+        if jax.dtypes.issubdtype(o.dtype, jax.dtypes.prng_key):
+            # typed PRNG keys: the key type (implementation) is part of the value
+            return ("prngkey", str(o.dtype), np.asarray(jax.random.key_data(o)))
     if hasattr(o, "__array__") and not isinstance(o, np.ndarray):
         return ("arr", name, np.asarray(o))
     if mod.startswith("nifty.re") or mod.startswith("jax"):
         import jax
         leaves, treedef = jax.tree_util.tree_flatten(o)
         if not (len(leaves) == 1 and leaves[0] is o):
+            # (the leaf's python type is part of the value: a numpy array is not a jax array)
             return ("tree", str(treedef), [canon(x) if not isinstance(x, (int, float, bool, np.ndarray)) else x for x in leaves])
     if isinstance(o, (set, frozenset)):
         return ("set", sorted(repr(x) for x in o))
